@@ -109,6 +109,7 @@ func checkC08(w *World, c *Check, tier string) {
 	c.floor("C08.assert", 20)
 	c.floor("C08.root", 60)
 	checkViewRoots(w, c)
+	checkOnHelpersReport(w, c)
 	checkAssertionsTested(w, c, "C08.assert", w.Funcs)
 	c.floor("C08.prefix", 10)
 	seen := map[string]int{}
@@ -742,4 +743,92 @@ func checkViewRoots(w *World, c *Check) {
 		}
 	}
 	c.stat("view_returns", n)
+}
+
+// checkOnHelpersReport (C08.on): a typed-view helper On*(it, fn) reports success without an error only after it has
+// handed the view to fn — or for a nil operand. A `return nil` taken for some non-nil operands ("the type name is not
+// one of the actor types: nothing to do") silently skips fn: the gob encoder, which is written as such callbacks, then
+// writes nothing for a generic Actor and reports no error.
+func checkOnHelpersReport(w *World, c *Check) {
+	item := w.itemIface()
+	n := 0
+	for _, f := range w.Funcs {
+		if f.Parent() != nil || f.Signature.Recv() != nil || !strings.HasPrefix(f.Name(), "On") || len(f.Params) != 2 || f.Signature.Results().Len() != 1 || f.Blocks == nil || !w.InPkg(f) {
+			continue
+		}
+		if !isErrorType(f.Signature.Results().At(0).Type()) || item == nil {
+			continue
+		}
+		if _, isIface := types.Unalias(f.Params[0].Type()).Underlying().(*types.Interface); !isIface {
+			continue
+		}
+		if _, isFn := types.Unalias(f.Params[1].Type()).Underlying().(*types.Signature); !isFn {
+			continue
+		}
+		n++
+		// blocks that call fn (directly or by handing it on to another package function)
+		calls := map[*ssa.BasicBlock]bool{}
+		for _, call := range callsIn(f) {
+			if call.Common().Value == ssa.Value(f.Params[1]) {
+				calls[call.Block()] = true
+			}
+			for _, a := range call.Common().Args {
+				if unwrap(a) == ssa.Value(f.Params[1]) {
+					calls[call.Block()] = true
+				}
+				if mc, isMC := unwrap(a).(*ssa.MakeClosure); isMC {
+					for _, bnd := range mc.Bindings {
+						if bnd == ssa.Value(f.Params[1]) {
+							calls[call.Block()] = true
+						}
+						if al, isAl := bnd.(*ssa.Alloc); isAl {
+							for _, st := range storesTo(al) {
+								if st.Val == ssa.Value(f.Params[1]) {
+									calls[call.Block()] = true
+								}
+							}
+						}
+					}
+				}
+			}
+		}
+		var offending ssa.Instruction
+		seenB := map[*ssa.BasicBlock]bool{}
+		work := []*ssa.BasicBlock{f.Blocks[0]}
+		for len(work) > 0 && offending == nil {
+			b := work[len(work)-1]
+			work = work[:len(work)-1]
+			if seenB[b] || calls[b] {
+				continue
+			}
+			seenB[b] = true
+			last := b.Instrs[len(b.Instrs)-1]
+			if ret, isRet := last.(*ssa.Return); isRet {
+				if len(ret.Results) == 1 && isNilConst(ret.Results[0]) {
+					offending = ret
+				}
+				continue
+			}
+			if iff, isIf := last.(*ssa.If); isIf {
+				skip := -1
+				for _, p := range f.Params {
+					if side, ok := nilSideOf(iff.Cond, p); ok {
+						skip = side
+					}
+				}
+				if skip >= 0 {
+					work = append(work, b.Succs[1-skip])
+					continue
+				}
+			}
+			work = append(work, b.Succs...)
+		}
+		if offending != nil {
+			c.bad("C08.on", funcName(f), w.InstrPos(offending), fmt.Sprintf("%s can report success for a non-nil operand without having handed it to its callback: the callers (encoders and decoders written as such callbacks) then do nothing for that operand and report no error", funcName(f)))
+		} else {
+			c.ok("C08.on", funcName(f), w.FuncPos(f), "success is reported only after the callback, or for a nil operand")
+		}
+	}
+	c.stat("on_helpers", n)
+	c.floor("C08.on", 10)
 }
